@@ -308,16 +308,36 @@ TRUSTED_BASE_COMMON = [
 ]
 
 
+TRANSLATOR_OUTPUTS = {
+    "gen_children.py": ["Gen/Children.v", "Gen/EqHash.v"], "gen_effects.py": ["Gen/Effects.v"], "gen_footprints.py": ["Gen/Footprints.v"],
+    "gen_prec.py": ["Gen/Prec.v"], "gen_tables.py": ["Gen/Ctx.v", "Gen/Enums.v", "Gen/Placeholders.v", "Gen/Interval.v"],
+}
+
+
 def proof_stage(run: Run, propfile, module, theorems, extra_targets=()):
     """regen + build + audit + Print Assumptions. Returns True when every obligation is discharged.
     Fills run.cov obligations/discharged. On failure records what broke in run.notes and returns False."""
     fails = regen()
     ok_all = True
     broken = []
-    if fails:
-        ok_all = False
-        broken += ["translator: " + f for f in fails]
     tgt = [propfile + "o"] + [t + "o" for t in extra_targets]
+    if fails:
+        # a translator that fails leaves its generated file as it was: it breaks the tie of exactly those properties whose proofs or case
+        # files (the cone of the targets) read that file - not of the others
+        try:
+            needed = set()
+            for t in [propfile] + list(extra_targets):
+                needed |= set(cone(t))
+        except Exception:  # noqa
+            needed = None
+        for f in fails:
+            tool = f.split(":", 1)[0]
+            outs = TRANSLATOR_OUTPUTS.get(tool)
+            if needed is None or outs is None or any(o in needed for o in outs):
+                ok_all = False
+                broken.append("translator: " + f)
+            else:
+                run.notes.append("translator %s failed; its output (%s) is not read by this property's proofs or case files" % (tool, ", ".join(outs)))
     ok, log = build(tgt)
     if not ok:
         ok_all = False
